@@ -328,6 +328,26 @@ fn run_tamper(plan: &Plan, lib: &dyn Lib, rec: &mut Rec) {
     let msg = message(&mut x, plan.get("msg_class") as usize);
     let Some(sig) = rec.call(lib, g, Op::Sign, &[&a.sk, &[scheme], &msg]).first().map(|v| v.to_vec()) else { return };
     let draft = Tags::draft(sig_grp(g));
+    // in every run, whatever the drawn perturbation: the reference judges the honest tuple too (a signature the
+    // library makes and accepts but the draft equation rejects is a wrong signature), and the message with its
+    // last bit flipped / one byte appended is judged by both
+    let honest = Tuple { pk: a.pk.clone(), sig: sig.clone(), msg: msg.clone() };
+    let exp_h = ref_decision(g, &draft, &honest);
+    let first = rec.call(lib, g, Op::Verify, &[&sig, &a.pk, &msg]);
+    rec.expect("C02", "decision-equals-reference", first.is_ok() == exp_h, || format!("honest-tuple scheme={} g={} | Signature::verify says {} for the library's own signature but an independent CoreVerify (draft tags) says {}; msg_len={}", scheme_name(scheme), g.name(), first.kind(), exp_h, msg.len()));
+    for which in 0..2 {
+        let mut m2 = msg.clone();
+        if which == 0 && !m2.is_empty() {
+            let l = m2.len() - 1;
+            m2[l] ^= 1;
+        } else {
+            m2.push(0);
+        }
+        let o = rec.call(lib, g, Op::Verify, &[&sig, &a.pk, &m2]);
+        let e = ref_decision(g, &draft, &Tuple { pk: a.pk.clone(), sig: sig.clone(), msg: m2.clone() });
+        rec.expect("C02", "decision-equals-reference", o.is_ok() == e, || format!("msg-last-bit-or-append scheme={} g={} | Signature::verify says {} but an independent CoreVerify (draft tags) says {}; msg_len={}", scheme_name(scheme), g.name(), o.kind(), e, m2.len()));
+        rec.expect("C02", "altered-tuple-rejected", !o.is_ok(), || format!("msg-last-bit-or-append scheme={} g={} | altered message accepted; msg_len={}", scheme_name(scheme), g.name(), m2.len()));
+    }
     let (mode, salt) = plan.faults.iter().find(|f| f.k == "perturb").map(|f| (f.arg(0), f.arg(1) as u64)).unwrap_or((0, 0));
     let mut c = Courier::new(plan.seed, 3);
     let mut t = Tuple { pk: a.pk.clone(), sig: sig.clone(), msg: msg.clone() };
@@ -428,25 +448,6 @@ fn run_tamper(plan: &Plan, lib: &dyn Lib, rec: &mut Rec) {
     }
     let again = c.at(2, || rec.call(lib, g, Op::Verify, &[&sig, &a.pk, &msg]));
     rec.expect("C02", "honest-tuple-accepted", again.is_ok(), || format!("honest-after-{} scheme={} g={} | honest tuple rejected after an altered one was presented: {:?}", label, scheme_name(scheme), g.name(), again));
-    // in every run, whatever the drawn perturbation: the reference judges the honest tuple too (a signature the
-    // library makes and accepts but the draft equation rejects is a wrong signature), and the message with its
-    // last bit flipped / one byte appended is judged by both
-    let honest = Tuple { pk: a.pk.clone(), sig: sig.clone(), msg: msg.clone() };
-    let exp_h = ref_decision(g, &draft, &honest);
-    rec.expect("C02", "decision-equals-reference", again.is_ok() == exp_h, || format!("honest-tuple scheme={} g={} | Signature::verify says {} for the library's own signature but an independent CoreVerify (draft tags) says {}; msg_len={}", scheme_name(scheme), g.name(), again.kind(), exp_h, msg.len()));
-    for which in 0..2 {
-        let mut m2 = msg.clone();
-        if which == 0 && !m2.is_empty() {
-            let l = m2.len() - 1;
-            m2[l] ^= 1;
-        } else {
-            m2.push(0);
-        }
-        let o = rec.call(lib, g, Op::Verify, &[&sig, &a.pk, &m2]);
-        let e = ref_decision(g, &draft, &Tuple { pk: a.pk.clone(), sig: sig.clone(), msg: m2.clone() });
-        rec.expect("C02", "decision-equals-reference", o.is_ok() == e, || format!("msg-last-bit-or-append scheme={} g={} | Signature::verify says {} but an independent CoreVerify (draft tags) says {}; msg_len={}", scheme_name(scheme), g.name(), o.kind(), e, m2.len()));
-        rec.expect("C02", "altered-tuple-rejected", !o.is_ok(), || format!("msg-last-bit-or-append scheme={} g={} | altered message accepted; msg_len={}", scheme_name(scheme), g.name(), m2.len()));
-    }
     // share verification entry points decide by the same equation
     if mode % 4 == 0 && scheme != 1 {
         let mut s32 = [0u8; 32];
